@@ -159,7 +159,8 @@ fn chain_doc(t: &mut Tape, column: usize) -> String {
 fn gen_content(t: &mut Tape, env: &Env, n: usize, column: usize) -> (Content, &'static str) {
     let (c, class) = gen_content_base(t, env, n, column);
     // spellings that differ from the formatted text only in line ends / final newline / trailing blanks
-    match (c, t.weighted(&[10, 2, 1, 2, 1, 1])) {
+    match (c, t.weighted(&[10, 2, 1, 2, 1, 1, 1])) {
+        (Content::Text(s), 6) => (Content::Text(format!("\u{feff}{s}")), class),
         (Content::Text(s), 1) => (Content::Text(s.replace('\n', "\r\n")), if class == "formatted(default-cfg)" { "formatted+crlf" } else { class }),
         (Content::Text(s), 2) => (Content::Text(s.replace('\n', "\r")), if class == "formatted(default-cfg)" { "formatted+cr" } else { class }),
         (Content::Text(s), 3) => (Content::Text(s.strip_suffix('\n').map(|x| x.to_string()).unwrap_or(s)), if class == "erroneous" { "erroneous+no-final-newline" } else { class }),
